@@ -611,3 +611,21 @@ def r6_tensor(text):
 def r6_as_ref(text):
     """X.as_ref()  ->  vt_as_slice(X)      (AsRef<[T]>::as_ref on a generic `impl AsRef<[T]>`)"""
     return re.subn(r'\b(%s)\.as_ref\(\)' % IDENT, r'vt_as_slice(\1)', text)
+
+
+@rule('R6_bpe_new')
+def r6_bpe_new(text):
+    """named idioms of BPETokenizer::new:
+       MergeOps::load(P)                                              -> vt_load_merges(P)
+       M.retain(|_, &mut id| id < L)                                  -> vt_retain_below(&mut M, L)
+       for (k, _) in M.iter().sorted_by_key(|&(_, id)| id) {          -> for k in vt_keys_sorted_by_id(&M) {"""
+    n = 0
+    text, k = re.subn(r'\bMergeOps::load\(', 'vt_load_merges(', text)
+    n += k
+    text, k = re.subn(r'\b(%s)\.retain\(\|_, &mut (%s)\| (%s) < (%s)\)' % ((IDENT,) * 4),
+                      lambda m: 'vt_retain_below(&mut %s, %s)' % (m.group(1), m.group(4)) if m.group(2) == m.group(3) else m.group(0), text)
+    n += k
+    text, k = re.subn(r'for \((%s), _\) in (%s)\.iter\(\)\.sorted_by_key\(\|&\(_, (%s)\)\| (%s)\) \{' % ((IDENT,) * 4),
+                      lambda m: 'for %s in vt_keys_sorted_by_id(&%s) {' % (m.group(1), m.group(2)) if m.group(3) == m.group(4) else m.group(0), text)
+    n += k
+    return text, n
